@@ -25,6 +25,11 @@ type setInst struct {
 }
 
 func newSet(kind string, cmpF func(a, b int) int, vs ...int) sets.Set[int] {
+	if cmpF == nil && kind == "treeset" { // New(): built-in comparator, float elements (fam_dflt.go)
+		s := newDefaultSet()
+		s.Add(vs...)
+		return s
+	}
 	switch kind {
 	case "hashset":
 		return hashset.New[int](vs...)
@@ -40,12 +45,12 @@ func newSet(kind string, cmpF func(a, b int) int, vs ...int) sets.Set[int] {
 func (x *setInst) Fam() string  { return "set" }
 func (x *setInst) Kind() string { return x.kind }
 func (x *setInst) Cfg() Ev {
-	return Ev{"zero": 0, "sorted": x.kind == "treeset", "cmp": baseCmp(x.cmp), "linked": x.kind == "linkedhashset"}
+	return Ev{"zero": 0, "sorted": x.kind == "treeset", "cmp": cfgCmp(x.cmp), "linked": x.kind == "linkedhashset"}
 }
 func (x *setInst) Target() any        { return x.s }
 func (x *setInst) Mask() reflect.Type { return nil }
 func (x *setInst) Mutates(op string) bool {
-	return op == "Add" || op == "Remove" || op == "Clear" || op == "New"
+	return op == "Add" || op == "Remove" || op == "Clear" || op == "New" || op == "FromJSON"
 }
 
 type idxIter interface {
@@ -86,6 +91,15 @@ func observeSet(s sets.Set[int], probe []int) Ev {
 		if b, err := t.ToJSON(); err == nil {
 			json.Unmarshal(b, &jvals)
 		}
+	case floatSet: // TreeSet made by New() with float elements
+		ordered = true
+		ft := t.s.(*treeset.Set[float64])
+		it := ft.Iterator()
+		for i := 0; it.Next() && i < 1<<20; i++ {
+			iter = append(iter, encF(it.Value()))
+		}
+		ft.Each(func(i int, v float64) { each = append(each, encF(v)) })
+		jvals = append(jvals, iter...)
 	}
 	o["iter"], o["each"], o["jvals"], o["ordered"] = iter, each, ints(jvals), ordered
 	return o
@@ -131,7 +145,7 @@ type setUniverse struct {
 }
 
 func (u *setUniverse) New() Inst {
-	if u.cmpF == nil {
+	if u.cmpF == nil && u.cmp != "dflt" {
 		u.cmpF = cmpInt(u.cmp)
 	}
 	var probe []int
@@ -155,8 +169,11 @@ func (u *setUniverse) Calls(x Inst) []Call {
 	}
 	cs = append(cs, Call{Op: "Remove", Vs: []int{u.n}}, Call{Op: "Contains", Vs: []int{1, u.n}}, Call{Op: "Remove", Vs: []int{-1}},
 		Call{Op: "Clear"}, Call{Op: "Values"}, Call{Op: "Size"}, Call{Op: "Empty"}, Call{Op: "String"},
-		Call{Op: "New", Vs: []int{2, 0, 2}}, Call{Op: "New", Vs: []int{}},
-		Call{Op: "FromJSON", Vs: []int{}}, Call{Op: "FromJSON", Vs: []int{2, 0, 2, 1}},
+		Call{Op: "New", Vs: []int{2, 0, 2}}, Call{Op: "New", Vs: []int{}})
+	if u.cmp == "dflt" {
+		return cs
+	}
+	cs = append(cs, Call{Op: "FromJSON", Vs: []int{}}, Call{Op: "FromJSON", Vs: []int{2, 0, 2, 1}},
 		// long argument lists: members, non-members and duplicates mixed
 		Call{Op: "Remove", Vs: []int{1, 3, 100, 101, 102, 0, 104, 105, 1}}, Call{Op: "Add", Vs: []int{3, 0, 3, 1, 2, 1, 0, 2, 3, 3}},
 		Call{Op: "Contains", Vs: []int{0, 0, 0, 0, 0, 0, 0, 0}})
@@ -247,14 +264,15 @@ func buildSet(kind string, f func(a, b int) int, members []int, viaRemove bool, 
 		return newSet(kind, f, members...)
 	}
 	s := newSet(kind, f)
-	for v := n; v >= 1; v-- {
+	for v := n; v >= 0; v-- {
 		s.Add(v)
 	}
 	in := map[int]bool{}
 	for _, m := range members {
 		in[m] = true
+		s.Add(m)
 	}
-	for v := 1; v <= n; v++ {
+	for v := 0; v <= n; v++ {
 		if !in[v] {
 			s.Remove(v)
 		}
@@ -276,6 +294,13 @@ func subsets(n int) [][]int {
 	return out
 }
 
+// large operands: ranges that are disjoint, touch in exactly one element, overlap, nest; both relative sizes
+func bigAlgPairs() [][2][]int {
+	a := rangeInts(0, 21)
+	return [][2][]int{{a, rangeInts(20, 46)}, {rangeInts(20, 46), a}, {a, rangeInts(21, 40)}, {a, rangeInts(10, 30)},
+		{a, rangeInts(5, 18)}, {rangeInts(5, 18), a}, {a, a}, {rangeInts(0, 40), rangeInts(38, 40)}, {rangeInts(0, 13), rangeInts(1, 14)}}
+}
+
 func jobAlg(j *jobCtx) {
 	n := 4
 	if !j.quick() {
@@ -288,6 +313,11 @@ func jobAlg(j *jobCtx) {
 	type cfgT struct{ kind, cmp string }
 	cfgs := []cfgT{{"hashset", ""}, {"linkedhashset", ""}, {"treeset", "nat"}, {"treeset", "revx"}, {"treeset", "half"}}
 	subs := subsets(n)
+	nsmall := len(subs)
+	for _, bp := range bigAlgPairs() {
+		subs = append(subs, bp[0], bp[1])
+	}
+	bigProbe := rangeInts(-1, 48)
 	for _, c := range cfgs {
 		if !j.want(c.kind) {
 			continue
@@ -296,6 +326,15 @@ func jobAlg(j *jobCtx) {
 		cfg := Ev{"zero": 0, "sorted": c.kind == "treeset", "cmp": baseCmp(c.cmp), "linked": c.kind == "linkedhashset"}
 		for ai, am := range subs {
 			for bi, bm := range subs {
+				// small operands: all pairs; large operands: the pairs they were made for (consecutive entries)
+				if (ai >= nsmall || bi >= nsmall) && !(ai >= nsmall && bi == ai+1 && (ai-nsmall)%2 == 0) && !(ai >= nsmall && ai == bi) {
+					continue
+				}
+				probe := probe
+				n := n
+				if ai >= nsmall {
+					probe, n = bigProbe, 46
+				}
 				for _, op := range []string{"Intersection", "Union", "Difference"} {
 					for _, alias := range []bool{false, true} {
 						if alias && ai != bi {
